@@ -353,7 +353,11 @@ def check(run):
     # defined and exact, but on which the library clears nothing, was not checked at all (over-reporting
     # truncation is not forbidden by the statement, so this is "no verdict", not a violation)
     vac = [s for s in main if s["evals"] - s["must"] > 0 and s["cleared"] == 0]
-    if vac:
+    if vac and run.violations:
+        # the library over-reports on these instances and that over-reporting is itself among the reported
+        # violations (ovf-unjustified): the empty cleared set is explained, not vacuous
+        run.cov["instances_clearing_nothing_with_reported_violations"] = len(vac)
+    elif vac:
         raise core.InfraError("vacuity guard: %d instance(s) have oracle-defined inputs but the <T> checkers clear none, "
                               "e.g. %s" % (len(vac), [(v["S"], v["T"], v["N"], v["D"], v["evals"] - v["must"],
                                                       "trunc_unjustified=%d" % v["trunc_unjust"]) for v in vac[:4]]))
